@@ -30,7 +30,8 @@ func (d verifMixData) GetCounts() []int                 { return d.counts }
 func (d verifMixData) GetN() int                        { return d.n }
 
 // cmode 0: no counts, 1: counts 1,2,3,.. , 2: all counts equal 2
-func verif_C16_emstep(m, n, k, cmode int) {
+// stale 1: the accumulators hold arbitrary values of an earlier step
+func verif_C16_emstep(m, n, k, cmode, stale int) {
 	pos := func(name string) float64 {
 		w := VerifFinite64(name)
 		VerifAssume(w > 0)
@@ -90,6 +91,18 @@ func verif_C16_emstep(m, n, k, cmode int) {
 		for i := 0; i < m; i++ {
 			tmp[t].gamma[i] = NullDenseFloat64Vector(n)
 		}
+		if stale == 1 {
+			// the per-thread accumulators as a previous EM step left them
+			tmp[t].likelihood = VerifFinite64("stale")
+			tmp[t].init = true
+			for i := 0; i < m; i++ {
+				tmp[t].logWeights.AT(i).SetFloat64(VerifFinite64("stale"))
+				tmp[t].gammaTmp.AT(i).SetFloat64(VerifFinite64("stale"))
+				for l := 0; l < n; l++ {
+					tmp[t].gamma[i].AT(l).SetFloat64(VerifFinite64("stale"))
+				}
+			}
+		}
 	}
 	lik, err := mix2.EmStep(mix1, mix2, d, nil, tmp, p)
 	VerifAssert("emstep:no-error", err == nil)
@@ -128,5 +141,5 @@ func verif_C16_emstep(m, n, k, cmode int) {
 }
 
 func init() {
-	VerifRegister("verif_C16_emstep", func(a []int) { verif_C16_emstep(a[0], a[1], a[2], a[3]) })
+	VerifRegister("verif_C16_emstep", func(a []int) { verif_C16_emstep(a[0], a[1], a[2], a[3], a[4]) })
 }
